@@ -210,7 +210,9 @@ def sentence(rng, lang, full=None, nbest=None, plain=False):
     t = gen.licensed_tree(rng, lang, nleaves=rng.randint(1, 6), full_tokens=full, plain_words=plain)
     out = [ScoredTree(t, score(rng))]
     for _ in range((nbest or rng.choice([1, 1, 2, 3])) - 1):
-        out.append(ScoredTree(rebuild(t) if rng.random() < 0.5 else gen.licensed_tree(rng, lang, nleaves=rng.randint(1, 5), full_tokens=full, plain_words=plain), score(rng)))
+        # alternatives may tie exactly (spurious ambiguity: same supertags and dependencies, another bracketing)
+        sc = out[-1].score if rng.random() < 0.3 else score(rng)
+        out.append(ScoredTree(rebuild(t) if rng.random() < 0.5 else gen.licensed_tree(rng, lang, nleaves=rng.randint(1, 5), full_tokens=full, plain_words=plain), sc))
     return out
 
 
